@@ -8,5 +8,29 @@ PROPS = {
                         "Poseidon (chip, cpu, round skips), Keccak/SHA3, BLAKE2b"],
         "trusted_base": [],
         "assumptions": [],
+        "claim": "Proof, for ALL inputs of each function, that the off-circuit spread/limb kernels which fill the SHA-256/SHA-512/RIPEMD-160 lookup tables and compute every witness limb are the FIPS 180-4 / RIPEMD functions they stand for (spread/even-odd bijection, Maj, Ch identity, the four sigma functions on the chip's limb splits, limb recomposition and rotation). The in-circuit constraint emission, Poseidon, Keccak and BLAKE2b are NOT decided; a wrong rotation constant in a gate is not seen, one in these utilities is.",
+        "level_note": "Kani/CBMC bit-precise over the full input domain of each function (loops bounded by the word width, unwinding assertions on); trusted: Kani+CBMC+SAT solver, rustc MIR semantics; the chips' use of these kernels is not verified.",
+        "technique": "Kani function contracts and full-domain harnesses on the real functions (contract-based deductive verification)",
+        "design_ref": "DESIGN.md section 5, C07",
     },
+}
+
+# claimed in DESIGN.md, machinery not built yet in this revision
+PENDING = {}
+for _p in ("C05", "C06", "C10", "C11", "C12", "C16", "C19"):
+    PENDING[_p] = "planned in DESIGN.md section 5 but the check is not built yet in this revision; not claimed until it is"
+
+NOT_APPLICABLE = {
+    "C01": "PLONK completeness is a composition theorem over ~5 kLoC of generic/iterator/rayon/FFI code; the one contract-shaped piece (prover and verifier replay the same Fiat-Shamir trace) lives in nested iterator closures Verus rejects, and Kani cannot build a ProvingKey symbolically.",
+    "C02": "verifier soundness is a cryptographic reduction plus agreement of two interpreters of a constraint system; there is no per-function contract whose conjunction is the property.",
+    "C03": "statement binding rests on Fiat-Shamir and the pairing check (blst); the contract-shaped pieces (canonical scalar decoding) are decided under C10/C16.",
+    "C04": "the property is about the constraint system emitted through the halo2 Region/Layouter API by trait-generic closures; no contract language for emitted constraints is within either verifier's subset, and rewriting the chips would be a model.",
+    "C08": "agreement between an off-circuit encoder and in-circuit exposure: same obstacle as C04, plus injectivity over BigUint/curve types from external crates.",
+    "C09": "a two-run non-interference (2-safety) property over synthesis; function contracts are single-run and the code is the region-API code of C04.",
+    "C13": "all mathematical content (Miller loop, final exponentiation) is inside blst C/assembly; the Rust side is pass-through wrappers, so a contract would restate the property as an axiom.",
+    "C14": "completeness/soundness are algebraic + cryptographic; the one data-structure contract (construct_intermediate_sets) sits on generic HashMap/BTreeSet iterator code neither Verus nor Kani can take.",
+    "C15": "probabilistic batching soundness; the totality clause is only decidable by executing batch_verify on an empty batch, i.e. a test, not a contract.",
+    "C17": "quantifies over thread schedules (Kani has no threads; Verus needs its own permission types) and over write/read pairs of generic FFI-backed key types.",
+    "C18": "agreement of two interpreters, one of which emits constraints (C04's obstacle); the off-circuit half runs on BigUint, strings and blst.",
+    "C20": "in-circuit verifier and IPA: the obstacles of C02 and C04 combined.",
 }
